@@ -543,6 +543,100 @@ func c09Reissue(thenStop bool, b Bounds) *Scenario {
 	}
 }
 
+// c09Restart: a callback posted from outside any handler is still unanswered when the server is
+// stopped, waited for and started again on a fresh channel (which WaitStatus documents as allowed).
+// The old callback must return (with an error); a callback on the new connection gets its own reply.
+func c09Restart(n int, b Bounds) *Scenario {
+	return &Scenario{
+		Name:   fmt.Sprintf("restart with %d unanswered callback(s) pending: Stop, Wait, Start again, new callback", n),
+		Params: map[string]any{"pending_callbacks": n, "history": []string{"Callback A... (unanswered)", "Stop", "Wait", "Start(new channel)", "Callback B", "reply to B"}},
+		Bounds: b,
+		New: func() *Instance {
+			body := func() {
+				lib, peer, _ := NewPipe(PipeOpts{Name: "srv", CloseUnblocksRecv: true})
+				srv := jrpc2.NewServer(anyAssigner{func(context.Context, *jrpc2.Request) (any, error) { return 1, nil }}, &jrpc2.ServerOptions{AllowPush: true})
+				srv.Start(lib)
+				var j Join
+				seen := 0
+				vs.GoNamed("peer", func() {
+					for {
+						if _, ok := peer.Recv(); !ok {
+							return
+						}
+						seen++
+					}
+				})
+				for k := 0; k < n; k++ {
+					k := k
+					j.Go(fmt.Sprintf("old%d", k), func() {
+						vs.Event("call", "Callback", fmt.Sprint("old", k))
+						rsp, err := srv.Callback(context.Background(), fmt.Sprintf("old%d", k), nil)
+						vs.Yield("ret")
+						if err != nil {
+							vs.Note("ret", "Callback", fmt.Sprint("old", k), "err", err.Error())
+						} else {
+							vs.Note("ret", "Callback", fmt.Sprint("old", k), "ok", rsp.ResultString())
+						}
+					})
+				}
+				vs.Await(func() bool { return seen == n }, "callbacks on the wire")
+				srv.Stop()
+				srv.Wait()
+				lib2, peer2, _ := NewPipe(PipeOpts{Name: "srv2", CloseUnblocksRecv: true})
+				srv.Start(lib2)
+				vs.GoNamed("peer2", func() {
+					rec, ok := peer2.Recv()
+					if ok {
+						ms, _, _ := parseRecord(rec)
+						for _, m := range ms {
+							if m.Has("method") && m.Has("id") {
+								peer2.Send([]byte(fmt.Sprintf(`{"jsonrpc":"2.0","id":%s,"result":"r:new"}`, m.ID())))
+							}
+						}
+					}
+					vs.AwaitQuiescence()
+					peer2.Close()
+				})
+				j.Go("new", func() {
+					vs.Event("call", "Callback", "new")
+					rsp, err := srv.Callback(context.Background(), "new", nil)
+					vs.Yield("ret")
+					if err != nil {
+						vs.Note("ret", "Callback", "new", "err", err.Error())
+					} else {
+						vs.Note("ret", "Callback", "new", "ok", rsp.ResultString())
+					}
+				})
+				j.Wait()
+				srv.WaitStatus()
+			}
+			check := func(x *vs.Exec) []Viol {
+				v := genericRules(x, nil)
+				if x.Outcome != "ok" {
+					return v
+				}
+				Hit("C09.R4")
+				for k := 0; k < n; k++ {
+					i := findEv(x, 0, "ret", "Callback", fmt.Sprint("old", k))
+					if i < 0 {
+						v = append(v, Viol{"C09.R4", fmt.Sprintf("callback old%d pending at Stop never returned", k)})
+					} else if x.Log[i].Arg(2) != "err" {
+						v = append(v, Viol{"C09.R4", fmt.Sprintf("callback old%d, never answered, returned %s", k, x.Log[i].Arg(3))})
+					}
+				}
+				i := findEv(x, 0, "ret", "Callback", "new")
+				if i < 0 {
+					v = append(v, Viol{"C09.R4", "the callback on the new connection did not return"})
+				} else if x.Log[i].Arg(2) != "ok" || x.Log[i].Arg(3) != `"r:new"` {
+					v = append(v, Viol{"C09.R5", fmt.Sprintf("the callback on the new connection returned %s %s, its peer sent \"r:new\"", x.Log[i].Arg(2), x.Log[i].Arg(3))})
+				}
+				return v
+			}
+			return &Instance{Body: body, Check: check}
+		},
+	}
+}
+
 func c09Scenarios(tier string) []*Scenario {
 	var out []*Scenario
 	add := func(p c09P, b Bounds) { out = append(out, c09Scenario(p, b)) }
@@ -570,10 +664,11 @@ func c09Scenarios(tier string) []*Scenario {
 	add(c09P{Push: true, N: 0, Script: "none", NoteWaits: true, Stop: true}, b2)
 	add(c09P{Push: true, N: 0, Script: "none", HandlerCB: true, Stop: true}, b2)
 	add(c09P{Push: true, N: 1, Script: "inorder", Notify: true}, b2)
-	out = append(out, c09Reissue(false, b1))
+	out = append(out, c09Reissue(false, b1), c09Restart(1, b2))
 	add(c09P{Push: true, N: 0, Script: "none", Notify: true, AfterStop: true}, b1)
 	add(c09P{Push: false, N: 1, Script: "none", Notify: true, AfterStop: true}, b1)
 	if !q {
+		out = append(out, c09Restart(2, Bounds{2, 2, 0}))
 		add(c09P{Push: true, N: 3, Script: "reverse"}, Bounds{1, 1, 0})
 		add(c09P{Push: true, N: 2, Script: "late", Cancel: true, PeerCall: true}, Bounds{2, 2, 0})
 		add(c09P{Push: true, N: 1, Script: "inorder", NoteWaits: true, Cancel: true}, Bounds{2, 2, 0})
